@@ -1,9 +1,11 @@
 #!/bin/bash
 # seed_collect.sh <Cxx> [tier] — evaluate the sub-agent's seeds for a property and store confirmed ones under /verif/seeded
 ID="$1"; TIER="${2:-quick}"
-for s in /tmp/seedwork/wt-$ID/.seed/*/; do
+for s in /tmp/seedwork/wt-$ID/.seed/*/ /tmp/seedwork/wt-$ID/.seed2/*/; do
   [ -f "$s/patch.diff" ] || continue
   i=$(basename "$s")
+  case "$s" in */.seed2/*) i=$((i+2));; esac
+  if [ -n "${ONLY:-}" ] && [ "$ONLY" != "$i" ]; then continue; fi
   res=$(/verif/selftest/seed_eval.sh "$s" "$ID" "$TIER" | head -1)
   echo "$res"
   ok=$(python3 - "$res" <<'PY'
